@@ -440,3 +440,28 @@ Section C01.
       + rewrite nth_overflow by assumption. reflexivity.
   Qed.
 End C01.
+
+(* the contract of ~ThreadPool as literally documented ("illegal to call the destructor while any OTHER thread makes calls to the pool"):
+   it does not forbid a task that the destructor itself runs from submitting more work *)
+Definition contract_event_weak (s1 : state) (d : nat) (ae : nat * event) : Prop :=
+  is_dtor_end (snd ae) = false /\ (fst ae = d \/ is_worker (getT s1 (fst ae)) = 1).
+
+(* witness (= event trace of the REAL code, props/pool_common.py WITNESSES[3]): pool(1) with its worker asleep; schedulePlaced(t0) puts t0 into
+   steal ring 0; ~ThreadPool starts at once; the worker exits; the destructor drains central (empty), rings, then steal ring 0: it runs t0,
+   whose body calls pool.schedule(t1): numThreads_ is still 1, so t1 is counted and enqueued centrally -- after the last central drain. *)
+Definition c01_late_prefix : list (nat * event) :=
+  [(1%nat,EWorkerBegin 0); (0%nat,EGen 0); (0%nat,ELoadNumThreads true 1); (0%nat,EAdd 1 1); (0%nat,EStealPush 0 true)].
+Definition c01_late_during : list (nat * event) :=
+  [(0%nat,EStopAll); (0%nat,EWakeAll); (0%nat,ECentralDone 2); (0%nat,EJoinBegin); (1%nat,EWorkerEnd 0); (0%nat,EJoinDone); (0%nat,ECentralDone 3);
+   (0%nat,ERingDone 0); (0%nat,EDrainSteal 0 0); (0%nat,EBodyBegin 0); (0%nat,EGen 1); (0%nat,ELoadNumThreads true 1); (0%nat,EAdd 1 1);
+   (0%nat,EEnqCentral 0 1); (0%nat,EBodyEnd 0); (0%nat,EStealDone 0)].
+
+Lemma c01_late_witness :
+  exists s1 s, accepts 16 32 8 (init 8 1) c01_late_prefix = Some s1 /\ quiet s1 0 /\ Forall (contract_event_weak s1 0%nat) c01_late_during /\
+    accepts 16 32 8 s1 ((0%nat, EDtorBegin) :: c01_late_during ++ [(0%nat, EDtorEnd)]) = Some s /\
+    rz s = RDead /\ gens s = [1; 0] /\ done s = [0] /\ central s = [(0, 1)].
+Proof.
+  eexists. eexists. split; [vm_compute; reflexivity|]. split; [apply quietb_sound; vm_compute; reflexivity|].
+  split; [repeat (apply Forall_cons; [unfold contract_event_weak; cbn [fst snd is_dtor_end]; split; [reflexivity|]; first [left; reflexivity | right; vm_compute; reflexivity]|]); apply Forall_nil|].
+  vm_compute. repeat split.
+Qed.
